@@ -1,4 +1,5 @@
 import ClusterVerif.Spec.C01
+import ClusterVerif.Model.C01Commit
 import Driver.PinParse
 /-!
 C01 driver. One case = one history:
@@ -229,9 +230,68 @@ def runCase (ops : List Op) (n : Nat) (evs : List (Nat × Tok)) (obs : List RawO
   let init : Acc := { sys := initSys n, shadow := List.replicate n {} }
   ((evs.zip obs).foldl (fun (st : Acc × Nat) eo => (oneEvent ops st.1 eo.1.1 eo.1.2 eo.2 st.2, st.2 + 1)) (init, 0)).1
 
+/-! ### kind redir: `C01 redir <CommitRetries> <where><method><nfail>,… => <res>~<forwarded>~<effect> …` -/
+
+structure RedirStep where
+  atLeader : Bool
+  method : Char
+  nfail : Nat
+
+def parseRedirStep (s : String) : Option RedirStep :=
+  match s.toList with
+  | w :: m :: rest =>
+    if (w == 'f' || w == 'l') && (m == 'P' || m == 'U' || m == 'A' || m == 'R') then
+      (String.ofList rest).toNat?.map (fun n => { atLeader := w == 'l', method := m, nfail := n })
+    else none
+  | _ => none
+
+def parseCallObs (s : String) : Option CallObs :=
+  match s.splitOn "~" with
+  | [r, f, e] => do
+    let ok ← if r == "ok" then some true else if r == "err" then some false else none
+    let eff ← if e == "1" then some Effect.all else if e == "0" then some Effect.none else if e == "m" then some Effect.mixed else none
+    pure { ok := ok, forwarded := ← f.toNat?, effect := eff }
+  | _ => none
+
+/-- the oracle the fault injector realises: `nfail` forwards fail, the next one is executed by the leader -/
+def redirOracle (st : RedirStep) : List Commit.Outcome :=
+  if st.atLeader then [.selfApplyOk] else List.replicate st.nfail .fwdErr ++ [.fwdOk]
+
+def redirExpected (retries : Nat) (st : RedirStep) : CallObs :=
+  let r := Commit.commit Commit.expectedRedir Commit.expectedOuter retries (redirOracle st)
+  { ok := !r.err,
+    forwarded := (r.consumed.filter (fun x => x == .fwdOk || x == .fwdErr)).length,
+    effect := if r.consumed.any (·.success) then .all else .none }
+
+def answerRedir (pre post : List String) : String :=
+  match pre with
+  | [r, stepsT] =>
+    match r.toNat?, (stepsT.splitOn ",").mapM parseRedirStep, post.mapM parseCallObs with
+    | some retries, some steps, some obs =>
+      if steps.length != obs.length then "bad-case obs-count" else
+      let failed := (callClauses obs).filter (fun c => !c.2)
+      let arms := (steps.zip obs).map (fun so =>
+        "arm=redir+" ++ (if so.1.atLeader then "leader" else "follower") ++ "-" ++ String.singleton so.1.method ++
+          (if so.1.atLeader then "" else if so.1.nfail == 0 then "-direct" else if so.1.nfail ≤ retries then "-retried" else "-exhausted") ++
+          (if so.2.ok then "-ok" else "-err"))
+      let arm := "arm=redir " ++ " ".intercalate arms.eraseDups
+      let diffs := ((steps.zip obs).zipIdx).filter (fun soi => redirExpected retries soi.1.1 != soi.1.2)
+      if !failed.isEmpty then
+        "propfail " ++ ",".intercalate (failed.map (·.1)) ++ " " ++ arm ++ " window=0 origins=0 order=1 agree=" ++
+          (if diffs.isEmpty then "1" else "0")
+      else match diffs.head? with
+        | some d =>
+          let e := redirExpected retries d.1.1
+          "diff " ++ arm ++ " step" ++ toString d.2 ++ ":model=" ++ (if e.ok then "ok" else "err") ++ "~" ++
+            toString e.forwarded ++ "~" ++ (match e.effect with | .all => "1" | .none => "0" | .mixed => "m")
+        | none => "ok " ++ arm
+    | _, _, _ => "bad-case parse"
+  | _ => "bad-case shape"
+
 def answer (ws : List String) : String :=
   match splitArrow ws with
   | none => "bad-case no-arrow"
+  | some ("redir" :: pre, post) => answerRedir pre post
   | some (pre, post) =>
     match pre with
     | [kind, n, opsT, evT] =>
@@ -243,7 +303,8 @@ def answer (ws : List String) : String :=
         let trace := a.trace.reverse
         let wins := a.inWindow.reverse
         let undec := a.undecAt.reverse
-        let origins := ops.any (fun o => !o.decodable)
+        let origins := ops.any (fun o => !o.thePin.opts.origins.isEmpty)
+        let undef := ops.any (fun o => o.thePin.cid == undefCid || o.thePin.ref == some undefCid)
         let arm := "arm=" ++ kind ++ " " ++ " ".intercalate (a.feats.map (fun f => "arm=" ++ kind ++ "+" ++ f))
         if a.beyond then "bad-case beyond-model (op applied on a poisoned FSM)" else
         -- The part of the history before the first observation touched by a recorded defect (an
@@ -257,6 +318,7 @@ def answer (ws : List String) : String :=
           let window := !bad.isEmpty && bad.all (·.2)
           "propfail " ++ ",".intercalate (failed.map (·.1)) ++ " " ++ arm ++
             " window=" ++ (if window then "1" else "0") ++ " origins=" ++ (if orig then "1" else "0") ++
+            (if undef then " undef=1" else "") ++
             " order=" ++ (if tr.all (trackerOrderOk ops) || failed.any (fun c => c.1 != "tracker_order") then "1" else "0") ++
             -- does the implementation behave exactly as the model (which includes the recorded defects) predicts?
             " agree=" ++ (if a.firstDiff.isNone then "1" else "0")
